@@ -5,10 +5,11 @@ import re, sys
 SIMPLE_CONSTS = {}
 
 class Func:
-    __slots__ = ('name', 'params', 'ret', 'locals', 'blocks', 'raw_header', 'argc')
+    __slots__ = ('name', 'params', 'ret', 'locals', 'blocks', 'raw_header', 'argc', 'debug')
     def __init__(self):
         self.locals = {}
         self.blocks = {}
+        self.debug = {}
 
 def split_top(s, sep=','):
     """split on sep at bracket depth 0 (handles <>, (), [], {} and string/char literals)."""
@@ -330,7 +331,10 @@ def parse_file(path, want=None):
                 if m: cur.locals[int(m.group(1))] = m.group(2)
             elif re.match(r'^bb\d+( \(cleanup\))?: \{$', s):
                 blk = []; cur.blocks[int(re.match(r'^bb(\d+)', s).group(1))] = blk
-            elif s == '}' or s.startswith(('debug ', 'scope ')) or s == '':
+            elif s.startswith('debug '):
+                m = re.match(r'^debug (\w+) => _(\d+);$', s)
+                if m: cur.debug.setdefault(m.group(1), []).append(int(m.group(2)))
+            elif s == '}' or s.startswith('scope ') or s == '':
                 pass
             elif blk is not None:
                 try:
